@@ -252,3 +252,111 @@ theorem features_unique_except_shared_outer (o : Opts) (isP : WayE → Bool) (d 
     rw [hc] at hns; cases hns
 
 end OsmVerif.Props.C17
+
+namespace OsmVerif.Props.C17
+open OsmVerif.Model.Geo OsmVerif.Model.Convert OsmVerif.Props.C16
+
+/-! ## a route relation's geometry is the join of its member ways' lines -/
+
+/-- the line of each way member that is in the data and has coordinates, in member order -/
+def routeLines (d : Data) (ms : List Member) : List Seg :=
+  ms.filterMap fun m =>
+    if m.type ≠ .way then none
+    else match findWay d m.ref with
+      | none => none
+      | some way =>
+        let ls := (wayToLineString d way).1
+        if ls = [] then none else some (Seg.mk' 0 m.orientation ls)
+
+def routeGeom (sections : List (List Seg)) : Geom :=
+  match sections with
+  | [one] => Geom.lineString (lineOf one)
+  | _ => Geom.multiLineString (sections.map lineOf)
+
+theorem routeLines_fresh (d : Data) (ms : List Member) : FreshInput (routeLines d ms) := by
+  intro s hs
+  unfold routeLines at hs
+  obtain ⟨m, _, hm⟩ := List.mem_filterMap.mp hs
+  simp only at hm
+  split at hm
+  · cases hm
+  · split at hm
+    · cases hm
+    · split at hm
+      · cases hm
+      · cases hm; rfl
+
+/-- one member of `buildRoute`'s loop -/
+def routeStep (d : Data) (st : List Seg × Bool × Skip) (m : Member) : List Seg × Bool × Skip :=
+  if m.type ≠ .way then st
+  else match findWay d m.ref with
+    | none => (st.1, true, st.2.2)
+    | some way =>
+      let skip := if hasInterestingTags way.tags none then st.2.2 else st.2.2 ++ [way.id]
+      let (ls, t) := wayToLineString d way
+      let tainted := st.2.1 || t
+      if ls = [] then (st.1, tainted, skip)
+      else (st.1 ++ [Seg.mk' 0 m.orientation ls], tainted, skip)
+
+theorem routeStep_lines (d : Data) (st : List Seg × Bool × Skip) (m : Member) :
+    (routeStep d st m).1 = st.1 ++ routeLines d [m] := by
+  unfold routeStep routeLines
+  simp only [List.filterMap_cons, List.filterMap_nil]
+  by_cases hw : m.type = .way
+  · have hw' : ¬ m.type ≠ .way := fun h => h hw
+    simp only [hw', if_false]
+    cases hf : findWay d m.ref with
+    | none => simp
+    | some way =>
+      simp only
+      by_cases hl : (wayToLineString d way).1 = []
+      · simp [hl]
+      · simp [hl]
+  · have hw' : m.type ≠ .way := hw
+    simp [hw']
+
+theorem routeFold_lines (d : Data) : ∀ (ms : List Member) (init : List Seg × Bool × Skip),
+    (ms.foldl (routeStep d) init).1 = init.1 ++ routeLines d ms := by
+  intro ms
+  induction ms with
+  | nil => intro init; simp [routeLines]
+  | cons m rest ih =>
+    intro init
+    simp only [List.foldl_cons]
+    rw [ih, routeStep_lines]
+    have : routeLines d (m :: rest) = routeLines d [m] ++ routeLines d rest := by
+      unfold routeLines
+      rw [← List.filterMap_append]; rfl
+    rw [this, List.append_assoc]
+
+theorem buildRoute_unfold (o : Opts) (d : Data) (r : RelationE) (skip : Skip) :
+    buildRoute o d r skip =
+      (let st := r.members.foldl (routeStep d) ([], false, skip)
+       if st.1 = [] then (none, st.2.2)
+       else (some { kind := "relation", id := r.id, idSet := !o.noID, geom := routeGeom (join st.1), tags := tagMap r.tags,
+                    tainted := st.2.1, relations := relationsProp o d .relation r.id, metaKeys := metaProp o r.md }, st.2.2)) := by
+  rfl
+
+/-- **the feature of a route relation**: when one is emitted, its geometry is the join of exactly the member ways'
+    lines (members that are ways, present in the data, with at least one coordinate), one line string when they join
+    into one, a multi line string otherwise — so by `route_preserves_segments` every member line with two or more
+    points is used once and every edge of it is in the geometry, none invented -/
+theorem buildRoute_geometry (o : Opts) (d : Data) (r : RelationE) (skip : Skip) (f : Feature)
+    (h : (buildRoute o d r skip).1 = some f) :
+    routeLines d r.members ≠ [] ∧ f.geom = routeGeom (join (routeLines d r.members)) ∧
+    ((((join (routeLines d r.members)).flatten).map norm).Perm ((compact (routeLines d r.members)).map norm) ∧
+      ∀ ms ∈ join (routeLines d r.members), Chain ms) := by
+  rw [buildRoute_unfold] at h
+  have hk := routeFold_lines d r.members ([], false, skip)
+  simp only [List.nil_append] at hk
+  generalize r.members.foldl (routeStep d) ([], false, skip) = st at h hk
+  simp only at h
+  split at h
+  · cases h
+  · rename_i hne
+    simp only [Option.some.injEq] at h
+    subst h
+    rw [hk] at hne
+    exact ⟨hne, by simp only [hk], route_preserves_segments _ (routeLines_fresh d r.members)⟩
+
+end OsmVerif.Props.C17
